@@ -41,6 +41,12 @@ class RandomInputs(dict):
         return r.uniform(-1, 1) * self.scale
 
 
+def _stable_seed(*parts):
+    """a seed that is the same in every process (str hashes are randomised per process)"""
+    import zlib
+    return zlib.crc32(repr(parts).encode('utf-8')) & 0xffffffff
+
+
 class BoundedCtx(dsl.ConcContext):
     def __init__(self, rnd, contract):
         dsl.ConcContext.__init__(self, rnd, contract)
@@ -100,7 +106,7 @@ def replay_file(path):
         seed = int(os.environ.get('VERIF_SEED', '0') or 0)
         tried = 0
         for i in range(400):
-            rng = random.Random(hash((seed, 'euf', doc['obligation'], i)) & 0xffffffff)
+            rng = random.Random(_stable_seed(seed, 'euf', doc['obligation'], i))
             ctx = BoundedCtx(RandomInputs(rng), ct)
             status, failed, exc = run_once(ct, ctx)
             if status == 'vacuous':
@@ -134,7 +140,7 @@ def replay_file(path):
     names = sorted(k for k, v in base.items() if isinstance(v, float) or (isinstance(v, int) and not isinstance(v, bool)))
     tried = 0
     for i in range(80 if names else 0):
-        rng = random.Random(hash((seed, 'near', doc.get('obligation', ''), i)) & 0xffffffff)
+        rng = random.Random(_stable_seed(seed, 'near', doc.get('obligation', ''), i))
         inp = dict(base)
         prob = (0.15, 0.3, 0.6)[i % 3]
         for k in names:
@@ -166,7 +172,7 @@ def bounded(prop, n, seed, all_failures=False):
             continue
         st = {'contract': ct.ident(), 'pass': 0, 'fail': 0, 'vacuous': 0, 'exception': 0, 'not_replayable': False}
         for i in range(n):
-            rng = random.Random(hash((seed, ct.ident(), i)) & 0xffffffff)
+            rng = random.Random(_stable_seed(seed, ct.ident(), i))
             ctx = BoundedCtx(RandomInputs(rng), ct)
             try:
                 status, failed, exc = run_once(ct, ctx)
